@@ -137,11 +137,16 @@ def check(ctx):
         if cond_store and v[0] != "ifexp":
             # the same wrap as a conditional store: the sentinel is preserved by not touching the entry
             v = ("ifexp", ("cmp", ("Eq",), (slot, ("const", "0.0"))), ("const", "0.0"), v)
+        if v[0] == "phi" and len(v) == 4:
+            # `t = entry; if t != '0.0': t = wrap(t); entry = t`: the same conditional value, the untouched arm being the entry itself
+            v = ("ifexp", v[1], v[2], v[3])
         if v[0] == "ifexp":
             c, a, b = v[1], v[2], v[3]
             if c == ("cmp", ("NotEq",), (slot, ("const", "0.0"))):
                 a, b = b, a
                 c = ("cmp", ("Eq",), (slot, ("const", "0.0")))
+            if c == ("cmp", ("Eq",), (slot, ("const", "0.0"))) and a == slot:
+                a = ("const", "0.0")        # where the entry equals the sentinel, keeping the entry keeps the sentinel
             if c == ("cmp", ("Eq",), (slot, ("const", "0.0"))) and a == ("const", "0.0"):
                 lw = lower(b)
                 try:
